@@ -118,6 +118,12 @@ type cacheModel struct {
 	//       flight that deletes the next value stored under the key
 	//  3: + a Del overlapping a Set of the same key (another client) leaves the Set's timer behind
 	//       (orphan), which later deletes the next value stored under the key
+	//  4: + an entry that was itself exposed to an older expiry task (racy, level 1) and has
+	//       disappeared may leave a SECOND expiry task of the same key in flight (its own), which
+	//       deletes the next value stored under the key: needs two expiry tasks in flight at once,
+	//       e.g. two SetWithExpire on an existing key with (jittered) expiries below the wheel's
+	//       1 s tick, each of which makes TimingWheel.moveTask run the expiry at once and
+	//       asynchronously (delay < interval => GoSafe(execute))
 	relaxed int
 	steps   int  // number of step evaluations (budget of the linearizability search)
 }
@@ -146,6 +152,7 @@ func (m *cacheModel) step(st cState, in cIn, out cOut) []cState {
 	var res []cState
 	for mask := 0; mask < 1<<len(elig); mask++ {
 		ents := st.ents
+		st := st // the ghost set of this branch (level 4 adds the keys of dropped racy entries)
 		if mask != 0 {
 			ents = make([]cEntry, 0, len(st.ents))
 			for i, e := range st.ents {
@@ -157,6 +164,8 @@ func (m *cacheModel) step(st cState, in cIn, out cOut) []cState {
 				}
 				if !dropped {
 					ents = append(ents, e)
+				} else if m.relaxed >= 4 && e.racy {
+					st.ghost |= uint32(1) << uint(e.key%32)
 				}
 			}
 		}
